@@ -26,9 +26,9 @@ TReturn ==
 TNext == TSilent \/ TReturn
 TSpec == TInit /\ [][TNext]_<<ovars, tid, l>>
 Track ==
-  /\ TLCSet(tid, IF l > TLCGet(tid) THEN l ELSE TLCGet(tid))
   /\ Chk("Inv:ExactSpan", ExactSpan) /\ Chk("Inv:BudgetRespected", BudgetRespected)
   /\ Chk("Inv:OverBudgetFails", OverBudgetFails) /\ Chk("Inv:FailLogged", FailLogged)
   /\ Chk("Inv:WrapperReports", WrapperReports)
+  /\ TLCSet(tid, IF l > TLCGet(tid) THEN l ELSE TLCGet(tid))   \* progress register: only states that satisfy every invariant count
 Verdicts == \A i \in 1..NT : PrintT(<<"VERDICT", Traces[i].tid, TLCGet(i), 2>>)
 =============================================================================
